@@ -22,6 +22,7 @@ PROPS = {
             {'engine': 'verus', 'name': 'channel_source', 'tier': 'quick', 'role': 'ChannelSource::next: every received item is emitted once, in order'},
             {'engine': 'verus', 'name': 'csv_source', 'tier': 'quick', 'role': 'byte-range computation of CsvSource::setup: start/end aligned to record boundaries, end of replica g == start of replica g+1, for any file size and replica count'},
             {'engine': 'verus', 'name': 'iterator_source', 'tier': 'quick', 'role': 'IteratorSource::{next,replication}: every item of the iterator once, in order, then one FlushAndRestart, then Terminate forever; a single replica'},
+            {'engine': 'verus', 'name': 'csv_next', 'tier': 'quick', 'role': "CsvSource::next: every record of the replica's reader emitted once, in order, as its deserialised item; one FlushAndRestart when the range is exhausted, then Terminate forever"},
         ],
         'explanation': 'Verus proof (unbounded) that every integer-range instance of generate_iterator returns exactly the chunk '
                        '[lo+min(n,i*c), lo+min(n,(i+1)*c)) without panicking for all bounds incl. reversed and near-limit ones, and a pure '
@@ -114,6 +115,7 @@ PROPS = {
             {'engine': 'verus', 'name': 'interval_join', 'tier': 'quick', 'role': "IntervalJoin::{advance,next} (NARROWED: soundness + iteration protocol): a left element is queued at the back of the left queue, a right element at the back of its key's queue, with their timestamps; every emitted tuple pairs a left and a right element stored under the SAME key with lt - lower <= rt <= lt + upper, stamped max(lt, rt); queues are consumed from the front only; both sides are emptied at the end of the iteration and the constructor state is restored at FlushAndRestart (the real code's asserts are proved). Completeness (every pair in the interval emitted) is NOT decided"},
             {'engine': 'verus', 'name': 'rich_map', 'tier': 'quick', 'role': "RichMap::next (keyed stateful map): one instance of the user's function per key, a clone of the initial one at the key's first element; an element is handed exactly once to the instance of ITS key, other keys' state untouched; key, kind and timestamp kept; control elements unchanged and touching no state"},
             {'engine': 'verus', 'name': 'keyed_join', 'tier': 'quick', 'role': 'JoinKeyedInner::{process_item,next} (the inner keyed-stream join): an arriving element is paired in order with EVERY element the other side stored under its key and then stored itself (so every same-key pair is emitted exactly once, when its later element arrives); a store is dropped when the side it serves has ended; both stores empty and flags reset at FlushAndRestart. JoinKeyedOuter is not under contract'},
+            {'engine': 'verus', 'name': 'csv_next', 'tier': 'quick', 'role': "CsvSource::next: every record of the replica's reader emitted once, in order, as its deserialised item; one FlushAndRestart when the range is exhausted, then Terminate forever"},
         ],
         'explanation': 'Verus proof of the per-call contract of Start::next (any number of upstream replicas, any batches): FlushAndRestart is returned exactly when every '
                        'upstream FlushAndRestart of the iteration was consumed (and the per-iteration state restarts), Terminate exactly when every upstream Terminate was consumed, '
